@@ -1,7 +1,7 @@
 //! Leg A — formatting through a simulated `fmt::Write` sink (DESIGN.md §3).
 
 use crate::common::*;
-use crate::jsonleg::{SimWriter, WriterPlan};
+use crate::iosim::{SimWriter, WriterPlan};
 use crate::prng::{Hash64, Rng};
 use crate::values::{hexword, ref_valid_bits, SIGN};
 use serde::{Deserialize, Serialize};
